@@ -3,3 +3,4 @@
 pub mod dict;
 pub mod ds;
 pub mod file;
+pub mod pdu;
